@@ -44,7 +44,7 @@ type caseT struct {
 	PerWriter int    `json:"messages_per_writer"`
 	FrameMax  int    `json:"max_frame_payload"`
 	InMsgs    int    `json:"inbound_messages"`
-	End       string `json:"end"` // client-close-frame | client-tcp-close | server-close | engine-stop
+	End       string `json:"end"` // client-close-frame | client-tcp-close | server-close | engine-stop | server-closeandclean
 	OpenJit   int    `json:"open_handler_us"`
 	MsgJit    bool   `json:"message_handler_jitter"`
 	Delay     bool   `json:"delay_points"`
@@ -53,7 +53,7 @@ type caseT struct {
 
 var paths = []string{"poller", "blocking-parser", "std-readloop", "transfer-blocking", "std-manual-readloop", "transfer-std", "mixed"}
 var modes = []string{"LT", "ET", "ONESHOT"}
-var ends = []string{"client-close-frame", "client-close-frame", "client-close-frame", "client-tcp-close", "server-close", "engine-stop"}
+var ends = []string{"client-close-frame", "client-close-frame", "client-close-frame", "client-tcp-close", "server-close", "engine-stop", "client-close-frame", "server-closeandclean"}
 
 func genCase(r *h.Run, idx int) caseT {
 	rng := r.Rand("c14-"+r.Phase, idx)
